@@ -6,6 +6,7 @@
       were, the two threads could not both be positioned at them);
     - reads see writes: every value a read returned is the initial value of the location or a
       value some completed write stored there (and, stronger, the newest one);
+    - a deadlock ([stuck]): some thread has work left and no thread can take a step;
     - sequential meaning of a lock-free program, against which concurrent runs are compared. *)
 From Coq Require Import List String Bool Arith PeanoNat.
 From GoBT Require Import model.Locks.
@@ -32,6 +33,12 @@ Definition reads_from_writes (mem0 : loc -> value) (s : state) : Prop :=
 
 (** linearizability of one guarded location: a read returns the newest completed write *)
 Definition newest (mem0 : loc -> value) (s : state) (l : loc) : value := hd (mem0 l) (written s l).
+
+(** deadlock: some thread still has work to do, yet no thread can take a step, whatever the
+    schedule offers ([step] answers [None] for a finished thread, for an acquire of a mutex that is
+    not available, and for an unlock of a mutex the thread does not hold) *)
+Definition stuck (s : state) : Prop :=
+  (exists t, prog (thr s t) <> []) /\ forall t g, step s t g = None.
 
 (** sequential meaning of a program: plain memory, no threads; the log of its reads (newest first) *)
 Fixpoint seq_log (m : loc -> value) (p : list mact) (acc : list (loc * value)) : list (loc * value) :=
